@@ -107,3 +107,41 @@ Example C15_action_demo :
   (exists j x, pos demo_st <= j < 2 /\ nth_error demo_toks j = Some x /\ is_ws (tok_consts KD) x = false).
 Proof. vm_compute. repeat split. exists 0, (tk 1 "a" 0). repeat split; auto. Qed.
 Print Assumptions C15_action_demo.
+
+(* ... and the two hypotheses on the method are a THEOREM about the generator (Proofs/GenWf.v, [generated_loc_ok]): in the
+   module generated from EVERY grammar in which forced items stand directly among the items of an alternative, no
+   repetition or gather is applied directly to a cut and no rule name starts with an underscore (the class of C05's
+   generator theorem), whatever the analysis results and tables, every method with an alternative that asks for
+   LOCATIONS has [m_locations] and is not a loop helper (invariant over the call maker and the work list: a queued loop
+   helper has no action of its own, or the gather's `elem`).  Hence in every parser generated from such a grammar,
+   every truthy result of a method with a LOCATIONS alternative is what one of its actions produced on the
+   span of its match, as stated above. *)
+From Pegen Require Import Grammar.Ast Analysis.Nullable Proofs.GenWf.
+Theorem C15_generated_parsers_give_actions_the_span_of_the_match :
+  forall invalid_tbl iter_fields pre suf file fb g an M,
+  grammar_shape_ok g = true ->
+  generate invalid_tbl iter_fields pre suf file fb g an = inl M ->
+  forall m, In m (i_meths M) -> existsb a_locations (m_alts m) = true ->
+  forall K toks verbose use_cache aeval exact_types token_dict rec fuel st v st2,
+  run_body K toks verbose use_cache M aeval exact_types token_dict rec fuel m st = (Ok v, st2) ->
+  truthy v = true ->
+  (exists j x, pos st <= j < pos st2 /\ nth_error toks j = Some x /\ is_ws (tok_consts K) x = false) ->
+  exists t0 a st' j tend,
+    nth_error toks (pos st) = Some t0 /\ In a (m_alts m) /\ pos st2 = pos st' /\
+    matched_by K toks verbose use_cache M aeval exact_types token_dict rec (pos st) (Some t0) a v st' /\
+    pos st <= j < pos st2 /\ nth_error toks j = Some tend /\ is_ws (tok_consts K) tend = false /\
+    (forall k x, j < k < pos st2 -> nth_error toks k = Some x -> is_ws (tok_consts K) x = true) /\
+    forall e,
+      env_get (act_env K toks a (Some t0) st' e) "start_lineno" = Some (VInt (Z.of_nat (sline t0))) /\
+      env_get (act_env K toks a (Some t0) st' e) "start_col_offset" = Some (VInt (Z.of_nat (scol t0))) /\
+      (a_locations a = true ->
+       env_get (act_env K toks a (Some t0) st' e) "end_lineno" = Some (VInt (Z.of_nat (eline tend))) /\
+       env_get (act_env K toks a (Some t0) st' e) "end_col_offset" = Some (VInt (Z.of_nat (ecol tend)))).
+Proof.
+  intros tbl itf pre suf file fb g an M Hg HM m Hin Hloc K toks verbose use_cache aeval ex td rec fuel st v st2 H Hv Hex.
+  pose proof (generated_loc_ok tbl itf pre suf file fb g an M Hg HM) as Hall.
+  rewrite forallb_forall in Hall. specialize (Hall m Hin). unfold meth_loc_ok in Hall. rewrite Hloc in Hall.
+  apply andb_prop in Hall as [Hml Hnl]. apply negb_true_iff in Hnl.
+  exact (C15_action_receives_the_span_of_the_match K toks verbose use_cache M aeval ex td rec fuel m st v st2 Hnl Hml H Hv Hex).
+Qed.
+Print Assumptions C15_generated_parsers_give_actions_the_span_of_the_match.
